@@ -1,5 +1,6 @@
 import O4.Lemmas.ServerAccept
 import O4.Props.C03
+import O4.Generated.Facts.Replayfilter
 /-!
 # C04 — obfs4 accepts each client handshake once, within ±1 hour of the server clock
 
@@ -264,17 +265,26 @@ example : WF newFilter 0 ∧ newFilter.ttl = (replayTTL : Int) ∧
   refine ⟨⟨by simp [newFilter, Filter.new, Sorted], by simp [newFilter, Filter.new], by decide⟩, rfl, by simp [MonotoneFrom], by decide⟩
 
 /-- **structural facts, regenerated from the Go source on every run (go/ast call sets)**: the
-    replay filter is consulted (`filter.TestAndSet`) inside `parseClientHandshake`, and the clock
-    it is handed (`time.Now`) and the epoch hour (`getEpochHour`) are read *there* — at the time
-    of the submission, as the model assumes — not when the connection was accepted
-    (`newServerHandshake` reads no clock). -/
+    replay filter is consulted inside `parseClientHandshake` through `filter.TestAndSetNow`, which
+    takes the filter's mutex (`Lock(); defer Unlock()`, only the immutable SipHash key touched
+    before) and reads the clock (`time.Now`) **itself, under that lock** — so the times the filter
+    sees are in lock order and concurrent handshakes can never present out-of-order readings
+    (the defect `concurrent-replay-on-empty-filter` of the original tree, where the caller read
+    `time.Now()` before the lock was taken); the epoch hour (`getEpochHour`) is read in
+    `parseClientHandshake` too — at the time of the submission, as the model assumes — not when
+    the connection was accepted (`newServerHandshake` reads no clock). -/
 theorem filter_clock_read_at_submission :
-    "filter.TestAndSet" ∈ O4.Facts.Obfs4.serverHandshake_parseClientHandshake_calls ∧
-    "time.Now" ∈ O4.Facts.Obfs4.serverHandshake_parseClientHandshake_calls ∧
+    "filter.TestAndSetNow" ∈ O4.Facts.Obfs4.serverHandshake_parseClientHandshake_calls ∧
+    "filter.TestAndSet" ∉ O4.Facts.Obfs4.serverHandshake_parseClientHandshake_calls ∧
     "getEpochHour" ∈ O4.Facts.Obfs4.serverHandshake_parseClientHandshake_calls ∧
     "time.Now" ∉ O4.Facts.Obfs4.func_newServerHandshake_calls ∧
     "getEpochHour" ∉ O4.Facts.Obfs4.func_newServerHandshake_calls ∧
-    "getEpochHour" ∉ O4.Facts.Obfs4.serverHandshake_generateHandshake_calls := by
+    "getEpochHour" ∉ O4.Facts.Obfs4.serverHandshake_generateHandshake_calls ∧
+    O4.Facts.Replayfilter.ReplayFilter_TestAndSetNow_locked = true ∧
+    O4.Facts.Replayfilter.ReplayFilter_TestAndSetNow_prelock ⊆ ["key"] ∧
+    "time.Now" ∈ O4.Facts.Replayfilter.ReplayFilter_TestAndSetNow_calls ∧
+    "f.testAndSet" ∈ O4.Facts.Replayfilter.ReplayFilter_TestAndSetNow_calls ∧
+    O4.Facts.Replayfilter.ReplayFilter_testAndSet_fields ⊆ O4.Facts.Replayfilter.ReplayFilter_TestAndSetNow_fields := by
   decide
 
 end C04
